@@ -16,7 +16,7 @@ func init() {
 			"R2 silent skips are documented noise — an optional token consumed under a kind guard whose branch leaves no trace (no store, no differing phi at the merge point) must be one of the canonicalisations the property lists: INNER, OUTER, INTO, FROM after DELETE, an optional/trailing comma. " +
 			"R3 optional-position flags — a token.Pos field that is InvalidPos on some paths and a real position on others, where no other printed field is definitely different between the two cases, must be read by SQL(). " +
 			"C01/R2 (required tokens are printed) is shared. Does not decide: order of the printed pieces, survival of literal values through re-quoting (C15).",
-		Rules: []ruleFn{ruleC02R1, ruleC02R2, ruleC02R3, ruleC01R2},
+		Rules: []ruleFn{ruleC02R1, ruleC02R2, ruleC02R3, ruleC01R2, ruleC02R4, ruleC01R6},
 	})
 }
 
@@ -587,4 +587,44 @@ func dependsOn(x, y ssa.Value, depth int) bool {
 		}
 	}
 	return false
+}
+
+// ruleC02R4: a node rebuilt from another node of its own type carries every field over.
+func ruleC02R4(w *World, r *Report) {
+	const rule = "C02/R4"
+	r.rule(rule, "where the parser rebuilds a node from another node of the same type (a composite literal at least two of whose fields are read from fields of one value of that type), every field of the struct is given a value — a field left out is a clause that was parsed and then dropped from the tree", 1)
+	for _, si := range w.sites() {
+		// the source value the fields are copied from
+		src := map[ssa.Value]int{}
+		for f, v := range si.val {
+			if ld, ok := isLoad(v); ok {
+				if fa, ok := ld.(*ssa.FieldAddr); ok && namedOf(fa.X.Type()) == si.ns.Named && fieldAddrName(fa) == f {
+					src[fa.X]++
+				}
+			}
+		}
+		best, n := ssa.Value(nil), 0
+		for v, c := range src {
+			if c > n || (c == n && best != nil && v.Name() < best.Name()) {
+				best, n = v, c
+			}
+		}
+		if n < 2 {
+			continue
+		}
+		st := si.ns.Named.Underlying().(*types.Struct)
+		var missing []string
+		for i := 0; i < st.NumFields(); i++ {
+			if _, ok := si.val[st.Field(i).Name()]; !ok {
+				missing = append(missing, st.Field(i).Name())
+			}
+		}
+		fn := si.al.Parent()
+		construct := fmt.Sprintf("ast.%s rebuilt in %s", si.ns.Name, funcName(fn))
+		if len(missing) == 0 {
+			r.ok(rule, construct, w.pos(si.al.Pos()), fmt.Sprintf("all %d fields are set (%d copied from the source node)", st.NumFields(), n))
+		} else {
+			r.bad(rule, construct, w.pos(si.al.Pos()), fmt.Sprintf("%d fields are copied from a node of the same type but %v are not set: whatever the source node carried there is dropped from the tree and from SQL()", n, missing))
+		}
+	}
 }
